@@ -729,10 +729,10 @@ namespace vf
                   vs.push_back( { "C05", std::string( "raise-position-range" ) + ( cf.lazy && m.raise_in_subinput ? ":lazy:subinput" : "" ), "parse_error byte " + std::to_string( got.byte ) + " lies before the start of the blamed attempt (" + std::to_string( want.rpos ) + ") or beyond the input" } );
                }
                else if( want.nested && got.byte != m.byte0 + std::size_t( want.rpos ) ) {
-                  vs.push_back( { "C05", "raise-nested-position", "nested parse_error byte " + std::to_string( got.byte ) + ", expected the start of the try block " + std::to_string( want.rpos ) } );
+                  vs.push_back( { "C05", std::string( "raise-nested-position" ) + ( cf.lazy && m.raise_in_subinput ? ":lazy:subinput" : "" ), "nested parse_error byte " + std::to_string( got.byte ) + ", expected the start of the try block " + std::to_string( want.rpos ) } );
                }
                else if( got.line != el || got.column != ec ) {
-                  vs.push_back( { "C05", "raise-position-inconsistent", "parse_error byte " + std::to_string( got.byte ) + " with line/column " + std::to_string( got.line ) + "/" + std::to_string( got.column ) + ", that byte is at " + std::to_string( el ) + "/" + std::to_string( ec ) } );
+                  vs.push_back( { "C05", std::string( "raise-position-inconsistent" ) + ( cf.lazy && m.raise_in_subinput ? ":lazy:subinput" : "" ), "parse_error byte " + std::to_string( got.byte ) + " with line/column " + std::to_string( got.line ) + "/" + std::to_string( got.column ) + ", that byte is at " + std::to_string( el ) + "/" + std::to_string( ec ) } );
                }
                const std::string wantwhat = got.source + ":" + std::to_string( got.line ) + ":" + std::to_string( got.column ) + ": " + got.message;
                if( got.what != wantwhat ) {
